@@ -304,7 +304,7 @@ impl BJudge {
 }
 
 /// Child mode: `mcx iso <prop> <lo> <hi>`.
-pub fn child(prop: &str, lo: usize, hi: usize) -> i32 {
+pub fn child(prop: &str, lo: usize, hi: usize, no_a: bool) -> i32 {
     use std::cell::{Cell, RefCell};
     use std::rc::Rc;
     crate::trap::install();
@@ -318,14 +318,23 @@ pub fn child(prop: &str, lo: usize, hi: usize) -> i32 {
     let cfg = stateprops::mixed_machine().cfg;
     let owned: &'static Owned = Box::leak(Box::new(Owned::new(&cfg)));
     let a = Rc::new(RefCell::new(owned.ctx()));
+    // a second "other" context with another own address and configuration (a memo keyed on
+    // everything but the device's own address only shows between devices that differ in it)
+    let cfg2 = Cfg { addr: 0x51, msg_types: vec![0x7E], vendors: vec![(1, 0x0000_8086, 7)] };
+    let owned2: &'static Owned = Box::leak(Box::new(Owned::new(&cfg2)));
+    let a2 = Rc::new(RefCell::new(owned2.ctx()));
     let cur = Rc::new(Cell::new(lo));
     let applied = Rc::new(Cell::new(0u64));
     {
-        let (evs, a, cur, applied) = (evs.clone(), a.clone(), cur.clone(), applied.clone());
+        let (evs, a, a2, cur, applied) = (evs.clone(), a.clone(), a2.clone(), cur.clone(), applied.clone());
         subject::set_other_ctx_hook(Some(Box::new(move || {
+            if no_a {
+                return;
+            }
             let ev = evs.get(cur.get());
+            let _ = subject::apply(&mut a2.borrow_mut(), &ev);
             let _ = subject::apply(&mut a.borrow_mut(), &ev);
-            applied.set(applied.get() + 1);
+            applied.set(applied.get() + 2);
         })));
     }
     let mut visited = 0u64;
@@ -333,15 +342,17 @@ pub fn child(prop: &str, lo: usize, hi: usize) -> i32 {
     for i in lo..hi {
         cur.set(i);
         let ev = evs.get(i);
-        if let Some((x, _)) = evs.pair(i) {
+        if let (Some((x, _)), false) = (evs.pair(i), no_a) {
             let first = evs.fixed[x].clone();
+            let _ = subject::apply(&mut a2.borrow_mut(), &first);
             let _ = subject::apply(&mut a.borrow_mut(), &first);
-            applied.set(applied.get() + 1);
+            applied.set(applied.get() + 2);
         }
-        if prop == "C19" {
+        if prop == "C19" && !no_a {
             // no context is involved in a conversion: A simply goes first
+            let _ = subject::apply(&mut a2.borrow_mut(), &ev);
             let _ = subject::apply(&mut a.borrow_mut(), &ev);
-            applied.set(applied.get() + 1);
+            applied.set(applied.get() + 2);
         }
         visited += 1;
         let level = if i < nfixed || (i + 1) % 256 == 0 || (i + 1 == hi && evs.pair(i).is_none()) { Level::Full } else { Level::Small };
@@ -378,8 +389,12 @@ struct ChildOut {
 }
 
 fn spawn(prop: &str, lo: usize, hi: usize) -> std::io::Result<std::process::Child> {
+    spawn_opt(prop, lo, hi, false)
+}
+
+fn spawn_opt(prop: &str, lo: usize, hi: usize, no_a: bool) -> std::io::Result<std::process::Child> {
     Command::new(std::env::current_exe()?)
-        .args(["iso", prop, &lo.to_string(), &hi.to_string()])
+        .args(["iso", prop, &lo.to_string(), &hi.to_string(), if no_a { "no-a" } else { "a" }])
         .stdout(std::process::Stdio::piped())
         .stderr(std::process::Stdio::piped())
         .spawn()
@@ -413,7 +428,11 @@ fn collect(c: std::process::Child) -> ChildOut {
 }
 
 fn run_range(prop: &str, lo: usize, hi: usize) -> ChildOut {
-    match spawn(prop, lo, hi) {
+    run_range_opt(prop, lo, hi, false)
+}
+
+fn run_range_opt(prop: &str, lo: usize, hi: usize, no_a: bool) -> ChildOut {
+    match spawn_opt(prop, lo, hi, no_a) {
         Ok(c) => collect(c),
         Err(e) => ChildOut { diffs: vec![], visited: 0, judged: 0, calls: 0, ok: false, raw: e.to_string() },
     }
@@ -479,6 +498,18 @@ pub fn phase(run: &mut Run) -> bool {
         run.acc.outcome("isolation.no-interference");
         return false;
     };
+    // Is it interference at all?  The damaged-echo B-cases are derived from the A-event's packet; if
+    // the same judgement differs in a fresh process in which context A does *nothing*, the library
+    // simply mishandles that derived input: a plain violation, and the other sub-spaces still run.
+    let alone = run_range_opt(&prop, i, i + 1, true);
+    if alone.ok && !alone.diffs.is_empty() {
+        let evs = AList::new();
+        let ev_i = evs.get(i);
+        run.subspaces.push(crate::engine::SubSpace { name, cardinality: n as u64, visited });
+        let detail = format!("an input derived from {} (one byte damaged, PEC left as it was) on a fresh context, no other context involved: {}", short_event(&ev_i), alone.diffs[0].1);
+        run.acc.violation(1, "derived-input", detail, || json!({"prop": prop, "check": "iso", "lo": i, "hi": i + 1, "no_a": true, "event": ev_i}));
+        return false;
+    }
     // minimise: does the single A-event reproduce it in a fresh process?  else the segment prefix
     let single = run_range(&prop, i, i + 1);
     let (lo, hi) = if !single.diffs.is_empty() { (i, i + 1) } else { (seg_lo, i + 1) };
@@ -510,7 +541,7 @@ pub fn replay(case: &Value) -> Result<ReplayOut, String> {
     let prop = case["prop"].as_str().ok_or("iso case lacks prop")?;
     let lo = case["lo"].as_u64().ok_or("iso case lacks lo")? as usize;
     let hi = case["hi"].as_u64().ok_or("iso case lacks hi")? as usize;
-    let o = run_range(prop, lo, hi);
+    let o = run_range_opt(prop, lo, hi, case["no_a"].as_bool().unwrap_or(false));
     if !o.ok {
         return Err(format!("isolation replay child failed: {}", o.raw));
     }
